@@ -5,6 +5,8 @@ A failing obligation here means the code moved away from the model.
 -/
 import GoZero.Extracted.C11
 import GoZero.C11.Model
+import GoZero.C11.Containers
+import GoZero.C11.DriverSeq
 namespace GoZero.C11.Tie
 open GoZero.Extracted.C11
 
@@ -120,8 +122,8 @@ theorem tie_chunkThreshold :
     chunkAddTaskStmts = ["ck := task.(chunk)", "bc.tasks = append(bc.tasks, ck.val)", "bc.size += ck.size",
       "return bc.size >= bc.maxChunkSize"] ∧
     chunkThreshold.head? = some "bc.size" ∧ chunkThreshold.getLast? = some "bc.maxChunkSize" ∧
-    ∀ (size : Task → Nat) (l : List Task) (max : Int),
-      chunkFull size max l = cmpEval (chunkThreshold.getD 1 "") (((l.map size).sum : Nat) : Int) max := by
+    ∀ (size : Task → Int) (l : List Task) (max : Int),
+      chunkFull size max l = cmpEval (chunkThreshold.getD 1 "") ((l.map size).sum) max := by
   refine ⟨by decide, by decide, by decide, ?_⟩
   intro size l max
   have : chunkThreshold.getD 1 "" = ">=" := by decide
@@ -237,5 +239,135 @@ theorem tie_sqlxCalls :
     sqlxExecuteConds.head? = some "if len(values) == 0" := by decide
 
 theorem tie_syncShape : syncShape = ["call pe.lock.Lock", "defer{", "call pe.lock.Unlock", "}", "call fn"] := by decide
+
+/-! ### SEMANTIC tie: the container methods and the executor's decisions, translated from the Go source into Lean
+functions (extract/c11.go: c11Translated / c11CondFn) and proven equal to the model's definitions FOR ALL ARGUMENTS.
+The primitives of Go the methods use are parameters of the translated functions; here they are instantiated with the
+slice-heap model of Containers.lean (`append` in place / fresh array, `len`, `nil`, `s[:0]`). -/
+
+section Containers
+variable {α : Type} (grow : Nat → Nat)
+
+def lenI (s : Slice) : Int := (s.len : Int)
+
+/-- `bulkContainer.AddTask` = `BulkC.addTask`: same heap, same `tasks`, same answer; `maxTasks` is not assigned -/
+theorem tie_bulkAddTask_sem (h : Heap α) (c : BulkC) (x : α) :
+    bulkAddTaskFn (Heap.append grow) lenI ({} : Slice) Heap.slice0 h c.tasks c.maxTasks x
+      = ((BulkC.addTask grow h c x).1, (BulkC.addTask grow h c x).2.1.tasks, (BulkC.addTask grow h c x).2.2) ∧
+    (BulkC.addTask grow h c x).2.1.maxTasks = c.maxTasks := ⟨rfl, rfl⟩
+
+/-- `bulkContainer.RemoveAll` = `BulkC.removeAll`: returns the slice, leaves `nil` -/
+theorem tie_bulkRemoveAll_sem (c : BulkC) :
+    bulkRemoveAllFn (Heap.append (α := α) grow) lenI ({} : Slice) Heap.slice0 c.tasks
+      = ((BulkC.removeAll c).1.tasks, (BulkC.removeAll c).2) ∧
+    (BulkC.removeAll c).1.maxTasks = c.maxTasks := ⟨rfl, rfl⟩
+
+/-- `chunkContainer.AddTask` = `ChunkC.addTask` (the task is the pair value / declared size) -/
+theorem tie_chunkAddTask_sem (size : α → Int) (h : Heap α) (c : ChunkC) (x : α) :
+    chunkAddTaskFn (Heap.append grow) lenI ({} : Slice) Heap.slice0 (fun x => (x, size x)) Prod.fst Prod.snd
+        h c.tasks c.size c.maxChunkSize x
+      = ((ChunkC.addTask grow size h c x).1, (ChunkC.addTask grow size h c x).2.1.tasks,
+         (ChunkC.addTask grow size h c x).2.1.size, (ChunkC.addTask grow size h c x).2.2) ∧
+    (ChunkC.addTask grow size h c x).2.1.maxChunkSize = c.maxChunkSize := ⟨rfl, rfl⟩
+
+/-- `chunkContainer.RemoveAll` = `ChunkC.removeAll`: returns the slice, leaves `nil` and size 0 -/
+theorem tie_chunkRemoveAll_sem (c : ChunkC) :
+    chunkRemoveAllFn (Heap.append (α := α) grow) lenI ({} : Slice) Heap.slice0 c.tasks c.size
+      = ((ChunkC.removeAll c).1.tasks, (ChunkC.removeAll c).1.size, (ChunkC.removeAll c).2) ∧
+    (ChunkC.removeAll c).1.maxChunkSize = c.maxChunkSize := ⟨rfl, rfl⟩
+
+/-- `dbInserter.AddTask` / `RemoveAll` = `SqlC.addTask` / `SqlC.removeAll` (threshold: the constant `maxBulkRows`) -/
+theorem tie_sqlxContainer_sem (h : Heap α) (c : SqlC) (x : α) :
+    sqlxAddTaskFn (Heap.append grow) lenI ({} : Slice) Heap.slice0 id h c.values x
+      = ((SqlC.addTask grow h c x).1, (SqlC.addTask grow h c x).2.1.values, (SqlC.addTask grow h c x).2.2) ∧
+    sqlxRemoveAllFn (Heap.append (α := α) grow) lenI ({} : Slice) Heap.slice0 c.values
+      = ((SqlC.removeAll c).1.values, (SqlC.removeAll c).2) := ⟨rfl, rfl⟩
+
+/-- `dbInserter.Execute` up to the `Exec` call = `sqlStmt`: no statement for an empty batch, else
+prefix ␣ rows joined by ", " [␣ suffix if the suffix is not empty] -/
+theorem tie_sqlxExecute_sem (pre suffix : String) (values : List String) :
+    sqlxExecuteFn id (fun l => (l.length : Int)) (fun s => (s.length : Int)) (fun l sep => sep.intercalate l)
+      pre suffix values = sqlStmt pre suffix values := by
+  unfold sqlxExecuteFn sqlStmt
+  by_cases h1 : values.length = 0 <;> by_cases h2 : suffix.length > 0 <;> simp [h1, h2] <;> omega
+
+end Containers
+
+/-- the executor's decisions: every row of the step table that branches does so on the condition translated from the
+source — bQuit (stay iff Since(last) <= interval*idleRound), qCheck (stop iff inflight == 0), wSpin (spin iff
+inflight > 0), aGuard (start a flusher iff !guarded), aAdd (hand over iff AddTask said full), aUnlock (send iff ok),
+fExec / bExec (call iff hasTasks: Len() > 0) -/
+theorem tie_conditions_sem (cfg : Cfg) (s : St) (t : Nat) (th : Thread) :
+    (th.pc = .bQuit → stepTh cfg s t th .tau =
+      some (s.upd t { th with pc := if shallQuitStaysFn ((s.now - th.last : Nat) : Int) (cfg.interval : Int) then .bSelect false else .qLock })) ∧
+    (th.pc = .qCheck → stepTh cfg s t th .tau =
+      if shallQuitStopsFn s.inflight then some ({ s with guarded := false }.upd t { th with pc := .qUnlock true })
+      else some (s.upd t { th with pc := .qUnlock false })) ∧
+    (th.pc = .wSpin → stepTh cfg s t th .tau =
+      if waitSpinsFn s.inflight then none else some (s.upd t { th with pc := .wBarrier })) ∧
+    (∀ ok, th.pc = .aGuard ok → stepTh cfg s t th .tau =
+      if startsFlusherFn s.guarded then some ({ s with guarded := true }.upd t { th with pc := .aUnlock ok true })
+      else some (s.upd t { th with pc := .aUnlock ok false })) ∧
+    (∀ x, th.pc = .aAdd x → stepTh cfg s t th .tau =
+      some ({ s with container := s.container ++ [x], added := s.added ++ [x] }.upd t
+        { th with pc := if handsOverFn (cfg.full (s.container ++ [x])) then .aInc else .aGuard false })) ∧
+    (∀ ok sp, th.pc = .aUnlock ok sp → stepTh cfg s t th .tau =
+      some ({ s with lock := false }.upd t { th with pc := if sp then .aSpawn ok else if addSendsFn ok then .aSend else .idle })) ∧
+    (∀ c, th.pc = .fExec c → stepTh cfg s t th .tau =
+      some (s.upd t { th with pc := if executesFn (hasTasksLenFn (th.reg.length : Int)) then .fCall c else .fDone c false })) ∧
+    (th.pc = .bExec → stepTh cfg s t th .tau =
+      some (s.upd t { th with pc := if executesFn (hasTasksLenFn (th.reg.length : Int)) then .bCall else .bDone })) := by
+  refine ⟨?_, ?_, ?_, ?_, ?_, ?_, ?_, ?_⟩
+  · intro hpc
+    unfold stepTh; simp only [hpc, shallQuitStaysFn]
+    by_cases h1 : s.now - th.last ≤ cfg.interval * GoZero.C11.idleRound
+    · have h2 : (((s.now - th.last : Nat) : Int)) ≤ (cfg.interval : Int) * 10 := by
+        simp only [GoZero.C11.idleRound] at h1; omega
+      simp [h1, h2]
+    · have h2 : ¬ (((s.now - th.last : Nat) : Int)) ≤ (cfg.interval : Int) * 10 := by
+        simp only [GoZero.C11.idleRound] at h1; omega
+      simp [h1, h2]
+  · intro hpc; unfold stepTh; simp [hpc, shallQuitStopsFn]
+  · intro hpc; unfold stepTh; simp [hpc, waitSpinsFn]
+  · intro ok hpc; unfold stepTh; simp only [hpc, startsFlusherFn]; cases s.guarded <;> simp
+  · intro x hpc; unfold stepTh; simp only [hpc, handsOverFn]
+    by_cases hb : cfg.full (s.container ++ [x]) = true <;> simp [hb]
+  · intro ok sp hpc; unfold stepTh; simp only [hpc, addSendsFn]
+    cases ok <;> cases sp <;> simp
+  · intro c hpc; unfold stepTh; simp only [hpc, executesFn, hasTasksLenFn]
+    cases th.reg <;> simp <;> omega
+  · intro hpc; unfold stepTh; simp only [hpc, executesFn, hasTasksLenFn]
+    cases th.reg <;> simp <;> omega
+
+/-- the package defaults that `newBulkOptions` / `newChunkOptions` start from and the sqlx inserter's interval and
+threshold: the literals the sequential driver and `SqlC` use -/
+theorem tie_defaults :
+    defaultBulkTasks = 1000 ∧ GoZero.C11.defaultBulkTasks = defaultBulkTasks ∧
+    defaultChunkSize = 1048576 ∧ GoZero.C11.defaultChunkSize = defaultChunkSize ∧
+    defaultFlushInterval = 1000000000 ∧ GoZero.C11.defaultFlushInterval = defaultFlushInterval ∧
+    sqlxFlushInterval = 1000000000 ∧ GoZero.C11.maxBulkRows = sqlxMaxBulkRows := by decide
+
+/-- options: every `With*` stores its argument in the field the constructor forwards, the defaults are the package
+constants, the options are applied to a fresh value (no state shared between executors) -/
+theorem tie_options :
+    newBulkOptionsStmts = ["return bulkOptions{ cachedTasks: defaultBulkTasks, flushInterval: defaultFlushInterval, }"] ∧
+    newChunkOptionsStmts = ["return chunkOptions{ chunkSize: defaultChunkSize, flushInterval: defaultFlushInterval, }"] ∧
+    withBulkTasksStmts = ["return func(options *bulkOptions) { options.cachedTasks = tasks }"] ∧
+    withBulkIntervalStmts = ["return func(options *bulkOptions) { options.flushInterval = duration }"] ∧
+    withChunkBytesStmts = ["return func(options *chunkOptions) { options.chunkSize = size }"] ∧
+    withFlushIntervalStmts = ["return func(options *chunkOptions) { options.flushInterval = duration }"] := by decide
+
+set_option maxRecDepth 8192 in
+/-- constructors: the options start from the defaults and are applied to a local value; the executor literal forwards
+interval and container; the flusher builds its ticker from `pe.interval`; the sqlx inserter hands ITS container and
+the package's `flushInterval` to `NewPeriodicalExecutor` -/
+theorem tie_constructors2 :
+    newBulkStmts.take 2 = ["options := newBulkOptions()", "for _, opt := range opts { opt(&options) }"] ∧
+    newChunkStmts.take 2 = ["options := newChunkOptions()", "for _, opt := range opts { opt(&options) }"] ∧
+    newPeriodicalFields = ["commander: make(chan any, 1)", "interval: interval", "container: container",
+      "confirmChan: make(chan lang.PlaceholderType)", "newTicker: func(d time.Duration) timex.Ticker { return timex.NewTicker(d) }"] ∧
+    sqlxNewStmts.getD 2 "" = "inserter := &dbInserter{ sqlConn: sqlConn, stmt: bkStmt, }" ∧
+    sqlxNewStmts.getD 3 "" = "return &BulkInserter{ executor: executors.NewPeriodicalExecutor(flushInterval, inserter), inserter: inserter, stmt: bkStmt, }, nil" ∧
+    tickerCalls = ["pe.newTicker(pe.interval)"] := by decide
 
 end GoZero.C11.Tie
